@@ -4,7 +4,8 @@
     Part 2: what "a repository publishes a pdiff index for a history" means). *)
 From Coq Require Import String.
 From Verif Require Import Lib.Base Lib.PyStr Lib.Dec Lib.PySlice
-  Pdiff.Ed Pdiff.EdSpec Pdiff.EdProofs Pdiff.Update Pdiff.UpdateSpec.
+  Gen.PyChars Pdiff.Ed Pdiff.EdSpec Pdiff.EdProofs Pdiff.EdInst
+  Pdiff.Update Pdiff.UpdateSpec Pdiff.UpdateCheck.
 
 (** * 0. Small general facts *)
 
@@ -727,8 +728,6 @@ End Main.
 (** * 6. The theorems *)
 
 (** What the property observes of a run of the model. *)
-Definition is_some {A} (o : option A) : bool := match o with Some _ => true | None => false end.
-
 Definition observe (out : result (list str) * fsstate) : observation :=
   mkobs (fst out) (option_map (@concat N) (f_local (snd out))) (is_some (f_new (snd out))).
 
@@ -809,7 +808,7 @@ Proof.
     X into Pprows.
   destruct (current_ok_parts _ _ _ _ Pcur) as (Hsep & Hcv & Fc).
   apply strs_eqb_eq in Phrows, Pprows. apply Nat.eqb_eq in Ph1, Pp1.
-  intros vn.
+  set (vn := current (versions v0 steps)) in *.
   rewrite (run_fields_spec is_space is_linebreak k (H k local) _
              (entries_value (px_hist_entries px)) (entries_value (px_patch_entries px)) _ _
              (walk H k (H k local) v0 steps) (digest_table H k psteps) Hcv).
@@ -889,4 +888,994 @@ Proof.
     + cbn [is_nil orb]. now apply download_file_quiet.
 Qed.
 
+(** ** update_converges *)
+Theorem update_converges e fs sc paras v0 steps px :
+  let k := choose_kind (concat paras) in
+  let vn := current (versions v0 steps) in
+  f_new fs = None ->
+  read_index is_space (e_index e) = Ok (IndexFields paras) ->
+  concat paras = px_fields px ->
+  hash_avail e k = true ->
+  publishes (prefix_of k) (H k) v0 steps px = true ->
+  patches_published e steps = true ->
+  full_published e vn = true ->
+  match f_local fs with
+  | Some local => no_collision (H k) local (versions v0 steps)
+  | None => true
+  end = true ->
+  no_faults sc = true ->
+  update_file e fs sc = (Ok vn, mkfs (Some vn) None).
+Proof.
+  intros k vn Hn Hidx Hfields Hav Hpub Hpat Hfull Hnc Hq. unfold Update.update_file.
+  destruct (f_local fs) as [local|] eqn:Hl.
+  - rewrite Hidx. now apply (update_converges_fields e fs sc local paras v0 steps px).
+  - now apply download_file_quiet.
+Qed.
+
 End Theorems.
+
+(** * 7. The same, in the words of the Spec that [holds] evaluates *)
+
+Lemma converged_intro s vn :
+  current (sn_hist s) = vn ->
+  converged s (observe (Ok vn, mkfs (Some vn) None)) = true.
+Proof.
+  intros <-. unfold converged, observe. cbn.
+  unfold lines_eqb, content_of. now rewrite strs_eqb_refl, str_eqb_refl.
+Qed.
+
+Lemma quiet_existsb s : forallb negb s = true -> existsb (fun b => b) s = false.
+Proof.
+  induction s as [|x s IH]; [reflexivity|]. cbn. intros E. apply andb_true_iff in E.
+  destruct E as [E1 E2]. apply negb_true_iff in E1. subst x. now apply IH.
+Qed.
+
+Lemma quiet_firstn n : forall s, forallb negb s = true -> forallb negb (firstn n s) = true.
+Proof.
+  induction n as [|n IH]; intros s E; [reflexivity|]. destruct s as [|x s]; [reflexivity|].
+  cbn in *. apply andb_true_iff in E. destruct E as [E1 E2]. rewrite E1. now apply IH.
+Qed.
+
+(** with no fault of any kind, an intact or unusable index obliges to converge *)
+Lemma verdict_quiet s :
+  sn_index s <> IdxLying -> sn_pfaults s = [] -> sn_full_fault s = false ->
+  forallb negb (sn_eff s) = true -> sn_unlink s = false ->
+  verdict_of s = MustConverge.
+Proof.
+  intros Hi Hp Hf He Hu. unfold verdict_of, fs_fault_possible, fs_fault_certain.
+  rewrite Hp, Hf, Hu. rewrite (quiet_existsb _ He).
+  rewrite (quiet_existsb _ (quiet_firstn _ _ He)). cbn [orb existsb is_nil_nat negb].
+  destruct (sn_index s); try congruence;
+    destruct (match sn_local s with Some l => lines_eqb l _ | None => false end);
+    try reflexivity;
+    destruct (match sn_local s with Some l => positions l _ 0 | None => [] end); reflexivity.
+Qed.
+
+(** update_fault_safe, for EVERY environment (index, patches, full file), EVERY
+    local state and EVERY fault schedule: the run either returns exactly what it
+    left in the local file, with no temporary file, or raises with the local
+    file exactly as before and the temporary file gone (unless removing it was
+    itself made to fail). *)
+Theorem update_fault_safe_spec is_space is_linebreak is_digit digit_val H e fs sc s :
+  f_new fs = None -> sn_local s = f_local fs -> sn_unlink s = s_unlink sc ->
+  let o := observe (update_file is_space is_linebreak is_digit digit_val H e fs sc) in
+  returned_is_local o || failed_safely s o = true.
+Proof.
+  intros Hn Hl Hu o. subst o.
+  pose proof (update_file_safe is_space is_linebreak is_digit digit_val H e fs sc Hn) as Hs.
+  unfold outcome_safe in Hs. unfold returned_is_local, failed_safely, observe.
+  destruct (update_file _ _ _ _ _ e fs sc) as [r fs']. cbn [fst snd] in *.
+  cbn [ob_result ob_local ob_new]. destruct r as [ls|x].
+  - destruct Hs as [E1 E2]. rewrite E1, E2. cbn. unfold content_of. now rewrite str_eqb_refl.
+  - destruct Hs as [E1 E2]. rewrite E1, Hl, Hu. cbn [is_ok negb andb orb].
+    assert (option_eqb str_eqb (option_map (@concat N) (f_local fs))
+              match f_local fs with Some l => Some (content_of l) | None => None end = true) as ->.
+    { destruct (f_local fs); cbn; [apply str_eqb_refl|reflexivity]. }
+    cbn [andb]. destruct (s_unlink sc); [now rewrite orb_true_r|].
+    now rewrite E2.
+Qed.
+
+(** Tie to the check: whenever [agree] holds of a case — the implementation did
+    what the model does on the world the harness built — what the IMPLEMENTATION
+    did satisfies the safety clause that [holds] evaluates. *)
+Lemma agree_observe u : agree_update u = true -> observation_of u = observe (model_update u).
+Proof.
+  unfold agree_update. destruct (model_update u) as [r fs']. unfold observation_of, observe.
+  cbn [ob_result ob_local ob_new fst snd]. intros E.
+  apply andb_prop in E. destruct E as [E E3]. apply andb_prop in E. destruct E as [E1 E2].
+  apply result_strs_eqb_eq in E1. apply option_str_eqb_eq in E2. apply Bool.eqb_prop in E3.
+  now rewrite E1, E2, E3.
+Qed.
+
+Theorem agree_implies_safe u :
+  agree_update u = true ->
+  returned_is_local (observation_of u) || failed_safely (scenario_of u) (observation_of u) = true.
+Proof.
+  intros E. rewrite (agree_observe u E). unfold model_update.
+  now apply update_fault_safe_spec.
+Qed.
+
+Section Converged.
+Variables is_space is_linebreak is_digit : N -> bool.
+Variable digit_val : N -> N.
+Variable H : hkind -> list str -> str.
+Hypothesis Hlb10 : is_linebreak 10 = true.
+Hypothesis Hdc : digit_class_ok is_digit digit_val.
+Notation update_file := (update_file is_space is_linebreak is_digit digit_val H).
+
+(** update_converges, as [holds] judges it: on the scenario "history v0..vn,
+    index intact, no fault of any kind", with the local copy anywhere. *)
+Theorem update_converges_spec e fs sc paras v0 steps px :
+  let k := choose_kind (concat paras) in
+  let vn := current (versions v0 steps) in
+  let s := mkscn (versions v0 steps) (f_local fs) IdxIntact [] false (s_eff sc) (s_unlink sc) in
+  f_new fs = None ->
+  read_index is_space (e_index e) = Ok (IndexFields paras) ->
+  concat paras = px_fields px ->
+  hash_avail e k = true ->
+  publishes is_space is_linebreak (prefix_of k) (H k) v0 steps px = true ->
+  patches_published e steps = true ->
+  full_published e vn = true ->
+  match f_local fs with
+  | Some local => no_collision (H k) local (versions v0 steps)
+  | None => true
+  end = true ->
+  no_faults sc = true ->
+  verdict_of s = MustConverge
+  /\ property_holds s (observe (update_file e fs sc)) = true.
+Proof.
+  intros k vn s Hn Hidx Hfields Hav Hpub Hpat Hfull Hnc Hq.
+  assert (Hv : verdict_of s = MustConverge).
+  { unfold no_faults in Hq. apply andb_prop in Hq. destruct Hq as [Hq1 Hq2].
+    apply negb_true_iff in Hq2. apply verdict_quiet; try reflexivity; try assumption.
+    discriminate. }
+  split; [exact Hv|]. unfold property_holds. rewrite Hv.
+  rewrite (update_converges is_space is_linebreak is_digit digit_val H Hlb10 Hdc
+             e fs sc paras v0 steps px) by assumption.
+  now apply converged_intro.
+Qed.
+
+End Converged.
+
+(** * 7b. update_unusable_index_downloads *)
+
+(** An entry line with the wrong number of columns. *)
+Definition bad_entry (is_space : N -> bool) (e : str) : bool :=
+  negb (is_nil e) && negb (List.length (resplit is_space e) =? 3)%nat.
+
+(** A field of the index that update_file cannot use: -Current without exactly two
+    columns, or a -History / -Patches line without exactly three. *)
+Definition malformed_field (is_space is_linebreak : N -> bool) (k : hkind) (f : field) : bool :=
+  (str_eqb (fst f) (f_current k) && negb (List.length (resplit is_space (snd f)) =? 2)%nat)
+  || ((str_eqb (fst f) (f_history k) || str_eqb (fst f) (f_patches k))
+      && existsb (bad_entry is_space) (splitlines is_linebreak false (snd f))).
+
+Section Unusable.
+Variables is_space is_linebreak is_digit : N -> bool.
+Variable digit_val : N -> N.
+Variable H : hkind -> list str -> str.
+Notation update_with_index := (update_with_index is_space is_linebreak is_digit digit_val H).
+Notation update_file := (update_file is_space is_linebreak is_digit digit_val H).
+Notation run_fields := (run_fields is_space is_linebreak).
+Notation step_field := (step_field is_space is_linebreak).
+Notation hist_entries := (hist_entries is_space).
+Notation patch_entries := (patch_entries is_space).
+
+(** the index cannot be fetched *)
+Theorem update_index_absent e fs sc :
+  e_index e = IdxAbsent -> update_file e fs sc = download_file e fs sc.
+Proof. intros E. unfold Update.update_file. rewrite E. now destruct (f_local fs). Qed.
+
+(** the index is not a sequence of deb822 paragraphs *)
+Theorem update_index_unparseable e fs sc ls :
+  e_index e = IdxLines ls -> parse_pf is_space ls = Err ParseError ->
+  update_file e fs sc = download_file e fs sc.
+Proof.
+  intros E Hp. unfold Update.update_file. rewrite E. cbn [read_index]. rewrite Hp.
+  now destruct (f_local fs).
+Qed.
+
+Lemma run_fields_app k lh pre : forall post st,
+  run_fields k lh (pre ++ post) st =
+  match run_fields k lh pre st with
+  | Cont st' => run_fields k lh post st'
+  | out => out
+  end.
+Proof.
+  induction pre as [|f pre IH]; intros post st; [reflexivity|].
+  cbn [app Update.run_fields]. destruct (step_field k lh st f); try reflexivity. apply IH.
+Qed.
+
+(** without a -Current field the loop neither returns early nor learns a remote digest *)
+Lemma run_fields_no_current k lh fs : forall st,
+  field_count (f_current k) fs = 0%nat -> st_remote st = None ->
+  match run_fields k lh fs st with
+  | Cont st' => st_remote st' = None
+  | UpToDate => False
+  | Unusable => True
+  end.
+Proof.
+  induction fs as [|[name value] fs IH]; intros st Hc Hst; [exact Hst|].
+  rewrite field_count_cons in Hc.
+  cbn [Update.run_fields Update.step_field].
+  destruct (str_eqb name (f_current k)); [cbn in Hc; lia|]. cbn [plus] in Hc.
+  destruct (str_eqb name (f_history k)).
+  - destruct (hist_entries _ _ _); [|exact I]. now apply IH.
+  - destruct (str_eqb name (f_patches k)).
+    + destruct (patch_entries _ _); [|exact I]. now apply IH.
+    + now apply IH.
+Qed.
+
+Lemma hist_entries_bad lh es : forall acc,
+  existsb (bad_entry is_space) es = true -> hist_entries lh es acc = None.
+Proof.
+  induction es as [|e es IH]; intros acc Hb; [discriminate|].
+  cbn [existsb] in Hb. cbn [Update.hist_entries]. unfold bad_entry in Hb at 1.
+  destruct (is_nil e); [cbn in Hb; now apply IH|]. cbn [negb andb] in Hb.
+  destruct (resplit is_space e) as [|h [|x [|n [|? ?]]]]; try reflexivity.
+  cbn in Hb. destruct (_ || _); now apply IH.
+Qed.
+
+Lemma patch_entries_bad es : forall d,
+  existsb (bad_entry is_space) es = true -> patch_entries es d = None.
+Proof.
+  induction es as [|e es IH]; intros d Hb; [discriminate|].
+  cbn [existsb] in Hb. cbn [Update.patch_entries]. unfold bad_entry in Hb at 1.
+  destruct (is_nil e); [cbn in Hb; now apply IH|]. cbn [negb andb] in Hb.
+  destruct (resplit is_space e) as [|h [|x [|n [|? ?]]]]; try reflexivity.
+  cbn in Hb. now apply IH.
+Qed.
+
+Lemma step_field_malformed k lh st f :
+  malformed_field is_space is_linebreak k f = true -> step_field k lh st f = Unusable.
+Proof.
+  destruct (names_distinct k) as (Nch & Ncp & Nhp).
+  destruct f as [name value]. unfold malformed_field. cbn [fst snd Update.step_field].
+  intros Hm. destruct (str_eqb name (f_current k)) eqn:EC.
+  - apply str_eqb_eq in EC. subst name.
+    rewrite (str_neq_eqb _ _ Nch), (str_neq_eqb _ _ Ncp) in Hm. cbn [andb orb] in Hm.
+    rewrite orb_false_r in Hm.
+    destruct (resplit is_space value) as [|a [|b [|c r]]]; try reflexivity. discriminate.
+  - cbn [andb orb] in Hm. destruct (str_eqb name (f_history k)).
+    + cbn [orb andb] in Hm. now rewrite hist_entries_bad.
+    + cbn [orb] in Hm. destruct (str_eqb name (f_patches k)); [|discriminate].
+      cbn [andb] in Hm. now rewrite patch_entries_bad.
+Qed.
+
+(** the index has no usable -Current field at all *)
+Theorem update_no_current_downloads e paras lines fs sc :
+  let k := choose_kind (concat paras) in
+  hash_avail e k = true ->
+  field_count (f_current k) (concat paras) = 0%nat ->
+  update_with_index e (IndexFields paras) lines fs sc = download_file e fs sc.
+Proof.
+  intros k Hav Hc. unfold Update.update_with_index. fold k. rewrite Hav. cbn [negb].
+  pose proof (run_fields_no_current k (H k lines) (concat paras) (mkst None [] []) Hc eq_refl) as Hr.
+  destruct (run_fields _ _ _ _) as [st| |]; [|destruct Hr|reflexivity].
+  now rewrite Hr.
+Qed.
+
+(** a field with the wrong number of columns, before any -Current field could
+    have said "up to date" *)
+Theorem update_malformed_field_downloads e paras pre f post lines fs sc :
+  let k := choose_kind (concat paras) in
+  hash_avail e k = true ->
+  concat paras = pre ++ f :: post ->
+  field_count (f_current k) pre = 0%nat ->
+  malformed_field is_space is_linebreak k f = true ->
+  update_with_index e (IndexFields paras) lines fs sc = download_file e fs sc.
+Proof.
+  intros k Hav Hsplit Hc Hm. unfold Update.update_with_index. fold k. rewrite Hav. cbn [negb].
+  rewrite Hsplit, run_fields_app.
+  pose proof (run_fields_no_current k (H k lines) pre (mkst None [] []) Hc eq_refl) as Hr.
+  destruct (run_fields k (H k lines) pre _) as [st| |]; [|destruct Hr|reflexivity].
+  cbn [Update.run_fields]. now rewrite step_field_malformed.
+Qed.
+
+End Unusable.
+
+(** * 7c. Honest -Current, anything else arbitrary: every fault schedule, every
+    patch corruption; and the faults that MUST surface as an error *)
+
+Definition patch_good (e : env) (s : pstep) : bool :=
+  result_eqb strs_eqb (e_patch e (ps_name s)) (Ok (ps_script s)).
+
+(** the patch cannot be fetched, or what is fetched does not have the recorded digest *)
+Definition patch_bad (Hk : list str -> str) (e : env) (s : pstep) : bool :=
+  match e_patch e (ps_name s) with
+  | Err _ => true
+  | Ok c => negb (str_eqb (Hk c) (Hk (ps_script s)))
+  end.
+
+Lemma dict_has_in n L : dict_has n L = true -> exists kv, In kv L /\ fst kv = n.
+Proof.
+  unfold dict_has, dict_get. destruct (List.find _ L) as [kv|] eqn:E; [|discriminate].
+  intros _. apply find_some in E. destruct E as [E1 E2]. apply str_eqb_eq in E2. eauto.
+Qed.
+
+Section Faults.
+Variables is_space is_linebreak is_digit : N -> bool.
+Variable digit_val : N -> N.
+Variable H : hkind -> list str -> str.
+Hypothesis Hlb10 : is_linebreak 10 = true.
+Hypothesis Hdc : digit_class_ok is_digit digit_val.
+Notation update_with_index := (update_with_index is_space is_linebreak is_digit digit_val H).
+Notation update_file := (update_file is_space is_linebreak is_digit digit_val H).
+Notation run_fields := (run_fields is_space is_linebreak).
+Notation apply_patches := (apply_patches is_digit digit_val H).
+Notation index_records := (index_records is_space is_linebreak).
+Notation publishes := (publishes is_space is_linebreak).
+
+(** the digest kind update_file selects for this index *)
+Definition kind_of (e : env) : hkind :=
+  match read_index is_space (e_index e) with
+  | Ok (IndexFields paras) => choose_kind (concat paras)
+  | _ => SHA1
+  end.
+
+(** every -Current field of the index (of the selected kind) records the digest
+    of [vn]; -History, -Patches and everything else are arbitrary *)
+Definition index_current_honest (e : env) (vn : list str) (sep size : str) : bool :=
+  match read_index is_space (e_index e) with
+  | Ok (IndexFields paras) =>
+      let fs := concat paras in
+      let k := choose_kind fs in
+      current_ok is_space (prefix_of k) (H k) vn (mkpidx fs sep size [] [])
+  | _ => true
+  end.
+
+Lemma download_file_cases e fs sc vn k :
+  full_honest e vn = true ->
+  (exists x, download_file e fs sc = (Err x, fs))
+  \/ (exists ls, H k ls = H k vn /\ download_file e fs sc = commit ls fs sc).
+Proof.
+  unfold full_honest. intros Hf. rewrite download_file_commit.
+  destruct (e_full e) as [ls|x]; [|left; eauto].
+  apply strs_eqb_eq in Hf. subst ls. right. eauto.
+Qed.
+
+(** The three ways a run can end. *)
+Lemma update_file_cases e fs sc vn sep size :
+  index_current_honest e vn sep size = true -> full_honest e vn = true ->
+  let k := kind_of e in
+  (exists x, update_file e fs sc = (Err x, fs))
+  \/ (exists local, f_local fs = Some local /\ H k local = H k vn
+                     /\ update_file e fs sc = (Ok local, fs))
+  \/ (exists ls, H k ls = H k vn /\ update_file e fs sc = commit ls fs sc).
+Proof.
+  intros Hidx Hfull k.
+  assert (Hdl : (exists x, download_file e fs sc = (Err x, fs))
+                \/ (exists ls, H k ls = H k vn /\ download_file e fs sc = commit ls fs sc))
+    by now apply download_file_cases.
+  assert (Hdl' : (exists x, download_file e fs sc = (Err x, fs))
+     \/ (exists local, f_local fs = Some local /\ H k local = H k vn
+                        /\ download_file e fs sc = (Ok local, fs))
+     \/ (exists ls, H k ls = H k vn /\ download_file e fs sc = commit ls fs sc))
+    by (destruct Hdl as [Hd|Hd]; auto).
+  unfold Update.update_file. destruct (f_local fs) as [local|] eqn:Hl.
+  2: { destruct Hdl as [Hd|Hd]; auto. }
+  unfold index_current_honest in Hidx. unfold kind_of in k.
+  destruct (read_index is_space (e_index e)) as [idx|x]; [|left; eauto].
+  destruct idx as [| |paras]; try exact Hdl'.
+  cbv zeta in Hidx. destruct (current_ok_parts is_space _ _ _ _ Hidx) as (_ & Hcv & Fc).
+  cbn [px_fields px_sep px_cur_size] in Hcv, Fc.
+  unfold Update.update_with_index. fold k.
+  destruct (negb (hash_avail e k)); [left; eauto|].
+  pose proof (run_fields_remote is_space is_linebreak k (H k local) _ _ _ Hcv
+                (concat paras) (mkst None [] []) Fc (or_introl eq_refl)) as Hr.
+  destruct (run_fields k (H k local) (concat paras) _) as [st| |]; try exact Hdl'.
+  2: { right; left. exists local. apply str_eqb_eq in Hr. auto. }
+  destruct (st_remote st) as [rh|]; [|exact Hdl'].
+  destruct Hr as [Hr|Hr]; [discriminate|]. inversion Hr; subst rh.
+  destruct (_ || _); [exact Hdl'|].
+  destruct (apply_patches _ _ _ _ _) as [lines'|x]; [|left; eauto].
+  destruct (negb _) eqn:Eh; [left; eauto|].
+  apply negb_false_iff, str_eqb_eq in Eh. right; right. exists lines'. split; [exact Eh|reflexivity].
+Qed.
+
+Lemma commit_result ls fs sc r :
+  fst (commit ls fs sc) = Ok r -> r = ls.
+Proof.
+  unfold commit. destruct (replace_file ls fs sc) as [[]?]; cbn; congruence.
+Qed.
+
+(** update_fault_safe, second half: whatever the faults, whatever the patches
+    and the rest of the index are, a successful run returns — and, by the first
+    half, has stored — a content whose digest is the one recorded as current *)
+Theorem update_success_is_current e fs sc vn sep size ls :
+  index_current_honest e vn sep size = true -> full_honest e vn = true ->
+  fst (update_file e fs sc) = Ok ls ->
+  H (kind_of e) ls = H (kind_of e) vn.
+Proof.
+  intros Hidx Hfull Hok.
+  destruct (update_file_cases e fs sc vn sep size Hidx Hfull) as [[x E]|[(l & _ & Hh & E)|(l & Hh & E)]];
+    rewrite E in Hok; cbn in Hok.
+  - discriminate.
+  - inversion Hok; now subst.
+  - apply commit_result in Hok. now subst.
+Qed.
+
+(** the fault that must surface: if the local file is not current, a fault
+    anywhere among open / write_1..write_n / close / rename of the one complete
+    replacement raises (and by the first half leaves the local file as it was) *)
+Theorem update_write_fault_raises e fs sc vn sep size :
+  index_current_honest e vn sep size = true -> full_honest e vn = true ->
+  (forall x, H (kind_of e) x = H (kind_of e) vn -> x = vn) ->
+  match f_local fs with Some local => negb (lines_eqb local vn) | None => true end = true ->
+  fs_fault_certain vn (s_eff sc) = true ->
+  is_ok (fst (update_file e fs sc)) = false.
+Proof.
+  intros Hidx Hfull Hinj Hloc Hf.
+  destruct (update_file_cases e fs sc vn sep size Hidx Hfull) as [[x E]|[(l & Hl & Hh & E)|(l & Hh & E)]];
+    rewrite E.
+  - reflexivity.
+  - apply Hinj in Hh. subst l. rewrite Hl in Hloc. unfold lines_eqb in Hloc.
+    now rewrite strs_eqb_refl in Hloc.
+  - apply Hinj in Hh. subst l. now apply commit_fault.
+Qed.
+
+(** ** a garbled or missing patch raises *)
+
+Lemma apply_patches_garbled k e d sfx : forall v,
+  chain_ok v sfx = true ->
+  (forall s, In s sfx -> dict_get (ps_name s) d = Some (H k (ps_script s))) ->
+  forallb (fun s => patch_good e s || patch_bad (H k) e s) sfx = true ->
+  existsb (patch_bad (H k) e) sfx = true ->
+  is_ok (apply_patches k e d (map ps_name sfx) v) = false.
+Proof.
+  induction sfx as [|s r IH]; intros v Hc Hd Hgb Hb; [discriminate|].
+  cbn [chain_ok] in Hc. apply andb_true_iff in Hc. destruct Hc as [Hc Hr].
+  apply andb_true_iff in Hc. destruct Hc as [Hok Hv].
+  cbn [forallb] in Hgb. apply andb_true_iff in Hgb. destruct Hgb as [Hs Hgb].
+  cbn [existsb] in Hb. cbn [map Update.apply_patches].
+  rewrite (Hd s) by now left.
+  destruct (patch_bad (H k) e s) eqn:Ebad.
+  - unfold patch_bad in Ebad. destruct (e_patch e (ps_name s)) as [c|x]; [|reflexivity].
+    now rewrite Ebad.
+  - rewrite orb_false_r in Hs. cbn [orb] in Hb. unfold patch_good in Hs.
+    apply result_strs_eqb_eq in Hs. rewrite Hs. rewrite str_eqb_refl. cbn [negb].
+    rewrite (step_script_exact is_digit digit_val Hdc) by assumption.
+    apply IH; auto. intros s0 Hs0. apply Hd. now right.
+Qed.
+
+Theorem update_garbled_patch_raises e fs sc local paras v0 steps px sfx :
+  let k := choose_kind (concat paras) in
+  let vn := current (versions v0 steps) in
+  concat paras = px_fields px ->
+  hash_avail e k = true ->
+  publishes (prefix_of k) (H k) v0 steps px = true ->
+  no_collision (H k) local (versions v0 steps) = true ->
+  lines_eqb local vn = false ->
+  chain_from local v0 steps = Some sfx ->
+  forallb (fun s => patch_good e s || patch_bad (H k) e s) sfx = true ->
+  existsb (patch_bad (H k) e) sfx = true ->
+  exists x, update_with_index e (IndexFields paras) local fs sc = (Err x, fs).
+Proof.
+  intros k vn Hfields Hav Hpub Hnc Hloc Ecf Hgb Hb.
+  destruct (publishes_parts is_space is_linebreak _ _ _ _ _ Hpub) as (Pchain & Pdist & Prec).
+  unfold Update.update_with_index. fold k. rewrite Hav. cbn [negb].
+  rewrite Hfields.
+  rewrite (run_fields_published is_space is_linebreak H Hlb10 k local v0 steps steps px Prec).
+  fold vn.
+  destruct (str_eqb (H k local) (H k vn)) eqn:Eup.
+  { pose proof (no_collision_current _ _ _ _ Hnc Eup) as E. fold vn in E. subst local.
+    unfold lines_eqb in Hloc. now rewrite strs_eqb_refl in Hloc. }
+  rewrite (walk_chain_from H k) by assumption. rewrite Ecf. cbn [st_remote st_apply st_hashes].
+  destruct (chain_from_spec _ _ _ _ Ecf Pchain) as (Cc & Cf & Cne & Cin).
+  assert (is_nil (map ps_name sfx) = false) as -> by now destruct sfx.
+  cbn [orb].
+  assert (forallb (fun n => dict_has n (digest_table H k steps ++ [])) (map ps_name sfx) = true)
+    as ->.
+  { apply forallb_forall. intros n Hin. apply in_map_iff in Hin. destruct Hin as (s & <- & Hs).
+    unfold dict_has. now rewrite (digest_table_get H k) by auto. }
+  cbn [negb].
+  pose proof (apply_patches_garbled k e (digest_table H k steps ++ []) sfx local Cc) as Hg.
+  destruct (apply_patches k e _ _ local) as [lines'|x]; [|eauto].
+  exfalso. assert (true = false) as Habs; [|discriminate]. apply Hg; auto.
+  intros s Hs. apply (digest_table_get H k); auto.
+Qed.
+
+(** ** a patch without recorded digest: the index is unusable, full download *)
+Theorem update_missing_digest_downloads e fs sc local paras v0 steps psteps px sfx :
+  let k := choose_kind (concat paras) in
+  let vn := current (versions v0 steps) in
+  concat paras = px_fields px ->
+  hash_avail e k = true ->
+  index_records (prefix_of k) (H k) v0 steps psteps px = true ->
+  no_collision (H k) local (versions v0 steps) = true ->
+  lines_eqb local vn = false ->
+  chain_from local v0 steps = Some sfx ->
+  existsb (fun s => negb (existsb (str_eqb (ps_name s)) (map ps_name psteps))) sfx = true ->
+  update_with_index e (IndexFields paras) local fs sc = download_file e fs sc.
+Proof.
+  intros k vn Hfields Hav Prec Hnc Hloc Ecf Hmiss.
+  unfold Update.update_with_index. fold k. rewrite Hav. cbn [negb].
+  rewrite Hfields.
+  rewrite (run_fields_published is_space is_linebreak H Hlb10 k local v0 steps psteps px Prec).
+  fold vn.
+  destruct (str_eqb (H k local) (H k vn)) eqn:Eup.
+  { pose proof (no_collision_current _ _ _ _ Hnc Eup) as E. fold vn in E. subst local.
+    unfold lines_eqb in Hloc. now rewrite strs_eqb_refl in Hloc. }
+  rewrite (walk_chain_from H k) by assumption. rewrite Ecf. cbn [st_remote st_apply st_hashes].
+  assert (forallb (fun n => dict_has n (digest_table H k psteps ++ [])) (map ps_name sfx) = false)
+    as ->; [|now rewrite orb_true_r].
+  apply existsb_exists in Hmiss. destruct Hmiss as (s & Hs & Hno).
+  destruct (forallb _ _) eqn:E; [|reflexivity]. exfalso.
+  rewrite forallb_forall in E. specialize (E (ps_name s) (in_map _ _ _ Hs)).
+  apply dict_has_in in E. destruct E as ([a b] & Hin & Ha). cbn in Ha. subst a.
+  rewrite app_nil_r in Hin. unfold digest_table in Hin. apply in_rev in Hin.
+  apply in_map_iff in Hin. destruct Hin as (s' & Es' & Hs').
+  inversion Es' as [[En Eh]]. apply negb_true_iff in Hno.
+  assert (existsb (str_eqb (ps_name s)) (map ps_name psteps) = true) as Hx; [|congruence].
+  apply existsb_exists. exists (ps_name s'). split; [now apply in_map|].
+  rewrite En. apply str_eqb_refl.
+Qed.
+
+End Faults.
+
+(** ** in the words of the Spec *)
+Section FaultsSpec.
+Variables is_space is_linebreak is_digit : N -> bool.
+Variable digit_val : N -> N.
+Variable H : hkind -> list str -> str.
+Notation update_file := (update_file is_space is_linebreak is_digit digit_val H).
+
+(** update_fault_safe as the property words it: for every fault schedule and every
+    corruption of patches, -History and -Patches — success with local = returned =
+    current content, or an error with the local file as before and no '.new' *)
+Theorem update_fault_safe_converges_spec e fs sc vn sep size s :
+  f_new fs = None ->
+  index_current_honest is_space H e vn sep size = true -> full_honest e vn = true ->
+  (forall x, H (kind_of is_space e) x = H (kind_of is_space e) vn -> x = vn) ->
+  current (sn_hist s) = vn -> sn_local s = f_local fs -> sn_unlink s = s_unlink sc ->
+  let o := observe (update_file e fs sc) in
+  converged s o || failed_safely s o = true.
+Proof.
+  intros Hn Hidx Hfull Hinj Hcur Hl Hu o.
+  pose proof (update_fault_safe_spec is_space is_linebreak is_digit digit_val H e fs sc s Hn Hl Hu)
+    as Hs. cbv zeta in Hs. fold o in Hs.
+  destruct (failed_safely s o); [now rewrite orb_true_r|]. rewrite orb_false_r in *.
+  unfold returned_is_local in Hs. unfold converged. rewrite Hcur.
+  destruct (ob_result o) as [ls|x] eqn:Er; [|discriminate].
+  assert (ls = vn) as ->.
+  { apply Hinj.
+    exact (update_success_is_current is_space is_linebreak is_digit digit_val H
+             e fs sc vn sep size ls Hidx Hfull Er). }
+  unfold lines_eqb. cbn [result_eqb]. rewrite strs_eqb_refl. exact Hs.
+Qed.
+
+Theorem update_write_fault_fails_spec e fs sc vn sep size s :
+  f_new fs = None ->
+  index_current_honest is_space H e vn sep size = true -> full_honest e vn = true ->
+  (forall x, H (kind_of is_space e) x = H (kind_of is_space e) vn -> x = vn) ->
+  match f_local fs with Some local => negb (lines_eqb local vn) | None => true end = true ->
+  fs_fault_certain vn (s_eff sc) = true ->
+  sn_local s = f_local fs -> sn_unlink s = s_unlink sc ->
+  let o := observe (update_file e fs sc) in
+  failed_safely s o = true.
+Proof.
+  intros Hn Hidx Hfull Hinj Hloc Hf Hl Hu o.
+  pose proof (update_fault_safe_spec is_space is_linebreak is_digit digit_val H e fs sc s Hn Hl Hu)
+    as Hs. cbv zeta in Hs. fold o in Hs.
+  pose proof (update_write_fault_raises is_space is_linebreak is_digit digit_val H
+                e fs sc vn sep size Hidx Hfull Hinj Hloc Hf) as Hr.
+  unfold returned_is_local in Hs. change (ob_result o) with (fst (update_file e fs sc)) in Hs.
+  destruct (fst (update_file e fs sc)); [discriminate|]. exact Hs.
+Qed.
+
+End FaultsSpec.
+
+(** ** the same at the level of update_file *)
+Section TopLevel.
+Variables is_space is_linebreak is_digit : N -> bool.
+Variable digit_val : N -> N.
+Variable H : hkind -> list str -> str.
+Hypothesis Hlb10 : is_linebreak 10 = true.
+Hypothesis Hdc : digit_class_ok is_digit digit_val.
+Notation update_with_index := (update_with_index is_space is_linebreak is_digit digit_val H).
+Notation update_file := (update_file is_space is_linebreak is_digit digit_val H).
+
+Lemma update_file_with_index e fs sc lines idx :
+  f_local fs = Some lines -> read_index is_space (e_index e) = Ok idx ->
+  update_file e fs sc = update_with_index e idx lines fs sc.
+Proof. intros Hl Hi. unfold Update.update_file. now rewrite Hl, Hi. Qed.
+
+Theorem update_file_no_current_downloads e paras fs sc :
+  let k := choose_kind (concat paras) in
+  read_index is_space (e_index e) = Ok (IndexFields paras) ->
+  hash_avail e k = true ->
+  field_count (f_current k) (concat paras) = 0%nat ->
+  update_file e fs sc = download_file e fs sc.
+Proof.
+  intros k Hi Hav Hc. destruct (f_local fs) as [lines|] eqn:Hl.
+  - rewrite (update_file_with_index e fs sc lines _ Hl Hi).
+    now apply update_no_current_downloads.
+  - unfold Update.update_file. now rewrite Hl.
+Qed.
+
+Theorem update_file_malformed_field_downloads e paras pre f post fs sc :
+  let k := choose_kind (concat paras) in
+  read_index is_space (e_index e) = Ok (IndexFields paras) ->
+  hash_avail e k = true ->
+  concat paras = pre ++ f :: post ->
+  field_count (f_current k) pre = 0%nat ->
+  malformed_field is_space is_linebreak k f = true ->
+  update_file e fs sc = download_file e fs sc.
+Proof.
+  intros k Hi Hav Hs Hc Hm. destruct (f_local fs) as [lines|] eqn:Hl.
+  - rewrite (update_file_with_index e fs sc lines _ Hl Hi).
+    now apply (update_malformed_field_downloads is_space is_linebreak is_digit digit_val H
+                 e paras pre f post).
+  - unfold Update.update_file. now rewrite Hl.
+Qed.
+
+Theorem update_file_missing_digest_downloads e fs sc local paras v0 steps psteps px sfx :
+  let k := choose_kind (concat paras) in
+  let vn := current (versions v0 steps) in
+  f_local fs = Some local ->
+  read_index is_space (e_index e) = Ok (IndexFields paras) ->
+  concat paras = px_fields px ->
+  hash_avail e k = true ->
+  index_records is_space is_linebreak (prefix_of k) (H k) v0 steps psteps px = true ->
+  no_collision (H k) local (versions v0 steps) = true ->
+  lines_eqb local vn = false ->
+  chain_from local v0 steps = Some sfx ->
+  existsb (fun s => negb (existsb (str_eqb (ps_name s)) (map ps_name psteps))) sfx = true ->
+  update_file e fs sc = download_file e fs sc.
+Proof.
+  intros k vn Hl Hi. rewrite (update_file_with_index e fs sc local _ Hl Hi).
+  now apply update_missing_digest_downloads.
+Qed.
+
+Theorem update_file_garbled_patch_raises e fs sc local paras v0 steps px sfx :
+  let k := choose_kind (concat paras) in
+  let vn := current (versions v0 steps) in
+  f_local fs = Some local ->
+  read_index is_space (e_index e) = Ok (IndexFields paras) ->
+  concat paras = px_fields px ->
+  hash_avail e k = true ->
+  publishes is_space is_linebreak (prefix_of k) (H k) v0 steps px = true ->
+  no_collision (H k) local (versions v0 steps) = true ->
+  lines_eqb local vn = false ->
+  chain_from local v0 steps = Some sfx ->
+  forallb (fun s => patch_good e s || patch_bad (H k) e s) sfx = true ->
+  existsb (patch_bad (H k) e) sfx = true ->
+  exists x, update_file e fs sc = (Err x, fs).
+Proof.
+  intros k vn Hl Hi. rewrite (update_file_with_index e fs sc local _ Hl Hi).
+  now apply update_garbled_patch_raises.
+Qed.
+
+End TopLevel.
+
+(** * 7d. The Index file as text: PackageFile reads back what was rendered *)
+
+Lemma rdropwhile_prefix {A} (p : A -> bool) l : exists t, l = rdropwhile p l ++ t.
+Proof.
+  unfold rdropwhile. exists (rev (fst (span p (rev l)))).
+  rewrite <- rev_app_distr. rewrite dropwhile_span, span_app. now rewrite rev_involutive.
+Qed.
+
+Section IndexText.
+Variable is_space : N -> bool.
+Hypothesis Hsp32 : is_space 32 = true.
+Hypothesis Hsp10 : is_space 10 = true.
+Hypothesis Hdot : is_space 46 = false.
+Hypothesis Halpha : forall c, is_alpha_c c = true -> is_space c = false.
+
+Notation trimmed := (trimmed is_space).
+Notation rfield_ok := (rfield_ok is_space).
+Notation match_cont := (match_cont is_space).
+Notation match_field := (match_field is_space).
+Notation pf_loop := (pf_loop is_space).
+
+Lemma trimmed_parts e :
+  trimmed e = true ->
+  e = [] \/ (exists c r, e = c :: r /\ is_space c = false)
+            /\ (exists r z, e = r ++ [z] /\ is_space z = false).
+Proof.
+  unfold UpdateSpec.trimmed. intros E. apply andb_prop in E. destruct E as [E _].
+  destruct e as [|c r]; [now left|]. right.
+  apply andb_prop in E. destruct E as [E1 E2]. apply negb_true_iff in E1, E2.
+  split; [eauto|].
+  exists (removelast (c :: r)), (last (c :: r) c). split; [|assumption].
+  apply app_removelast_last. discriminate.
+Qed.
+
+Lemma rstrip_line e :
+  trimmed e = true -> rstrip_by is_space (e ++ [10%N]) = e.
+Proof.
+  intros Ht. unfold rstrip_by. rewrite rdropwhile_app_drop by (cbn; now rewrite Hsp10).
+  destruct (trimmed_parts e Ht) as [->|[_ (r & z & -> & Hz)]]; [reflexivity|].
+  now apply rdropwhile_app_keep.
+Qed.
+
+Lemma strip_line e :
+  trimmed e = true ->
+  strip_by is_space ((match e with [] => [] | _ => 32%N :: e end) ++ [10%N]) = e.
+Proof.
+  intros Ht. unfold strip_by, lstrip_by.
+  destruct e as [|c r].
+  - cbn [app dropwhile]. now rewrite Hsp10.
+  - destruct (trimmed_parts _ Ht) as [E|[(c' & r' & E & Hc) _]]; [discriminate|].
+    inversion E; subst c' r'.
+    cbn [app dropwhile]. rewrite Hsp32, Hc. rewrite app_comm_cons.
+    now apply rstrip_line.
+Qed.
+
+Lemma match_cont_cont e :
+  trimmed e = true -> str_eqb e [46%N] = false -> match_cont (cont_line e) = Some e.
+Proof.
+  intros Ht Hne. unfold Update.match_cont, cont_line.
+  destruct e as [|c r].
+  - cbn [span app]. rewrite Hsp32. cbn [span]. rewrite Hdot. reflexivity.
+  - destruct (trimmed_parts _ Ht) as [E|[(c' & r' & E & Hc) _]]; [discriminate|].
+    inversion E; subst c' r'.
+    cbn [span app]. rewrite Hsp32. cbn [span]. rewrite Hc.
+    assert (str_eqb (c :: r ++ [10%N]) [46%N] = false) as ->.
+    { destruct r; cbn; now rewrite andb_false_r. }
+    assert (str_eqb (c :: r ++ [10%N]) [46%N; 10%N] = false) as ->.
+    { destruct r as [|x r]; cbn in *.
+      - now rewrite andb_true_r in *.
+      - destruct r; cbn; now rewrite ?andb_false_r. }
+    cbn [orb]. rewrite app_comm_cons. f_equal. now apply rstrip_line.
+Qed.
+
+Lemma name_ok_parts n :
+  name_ok n = true ->
+  exists c x r, n = c :: x :: r /\ is_alpha_c c = true /\ forallb is_name_c (x :: r) = true.
+Proof.
+  unfold name_ok. destruct n as [|c [|x r]]; try discriminate. intros E.
+  apply andb_prop in E. destruct E as [E1 E2]. eauto 6.
+Qed.
+
+Lemma match_cont_first f :
+  name_ok (rf_name f) = true -> match_cont (first_line f) = None.
+Proof.
+  intros Hn. destruct (name_ok_parts _ Hn) as (c & x & r & E & Hc & _).
+  unfold Update.match_cont, first_line. rewrite E. cbn [app span].
+  now rewrite (Halpha c Hc).
+Qed.
+
+Lemma match_cont_blank : match_cont [10%N] = None.
+Proof. unfold Update.match_cont. cbn [span]. now rewrite Hsp10. Qed.
+
+Lemma match_field_first f :
+  rfield_ok f = true -> match_field (first_line f) = Some (rf_name f, rf_first f).
+Proof.
+  unfold UpdateSpec.rfield_ok. intros E. apply andb_prop in E. destruct E as [E _].
+  apply andb_prop in E. destruct E as [Hn Ht].
+  destruct (name_ok_parts _ Hn) as (c & x & r & En & Hc & Hr).
+  unfold Update.match_field, first_line. rewrite En. cbn [app].
+  change (is_alpha c) with (is_alpha_c c). rewrite Hc.
+  change (x :: r ++ 58%N :: ?v) with ((x :: r) ++ 58%N :: v).
+  rewrite (span_forall_app is_name_char (x :: r) 58%N) by (try exact Hr; reflexivity).
+  now rewrite strip_line.
+Qed.
+
+Lemma not_blank_first f :
+  name_ok (rf_name f) = true -> is_blank_line (first_line f) = false.
+Proof.
+  intros Hn. destruct (name_ok_parts _ Hn) as (c & x & r & E & Hc & _).
+  unfold is_blank_line, first_line. rewrite E. cbn [app].
+  set (line := c :: _).
+  assert (Hc1 : in_chars [32%N; 9%N] c = false).
+  { unfold in_chars. cbn [existsb]. unfold is_alpha_c in Hc.
+    destruct (N.eqb_spec c 32) as [->|_]; [discriminate|].
+    destruct (N.eqb_spec c 9) as [->|_]; [discriminate|]. reflexivity. }
+  unfold strip_by, lstrip_by. subst line. cbn [dropwhile]. rewrite Hc1.
+  unfold rstrip_by.
+  destruct (rdropwhile_prefix (in_chars [32%N; 9%N]) (c :: x :: r ++ 58%N :: (match rf_first f with [] => [] | _ => 32%N :: rf_first f end) ++ [10%N])) as [t Et].
+  destruct (rdropwhile _ _) as [|y l]; [reflexivity|].
+  cbn [app] in Et. inversion Et as [[Ey El]]. subst y.
+  destruct l; [|cbn; now rewrite andb_false_r].
+  cbn. destruct (N.eqb_spec c 10) as [->|_]; [discriminate|reflexivity].
+Qed.
+
+(** ** the paragraph reader, field by field *)
+
+Definition flush (cur : option field) (pkg : para) : para :=
+  match cur with Some f => f :: pkg | None => pkg end.
+
+Lemma pf_cont_lines entries : forall ls paras pkg nm ct,
+  forallb (fun e => trimmed e && negb (str_eqb e [46%N])) entries = true ->
+  pf_loop (map Some (map cont_line entries) ++ ls) paras pkg (Some (nm, ct)) =
+  pf_loop ls paras pkg (Some (nm, ct ++ concat (map (fun e => 10%N :: e) entries))).
+Proof.
+  induction entries as [|e es IH]; intros ls paras pkg nm ct Hok.
+  - cbn [map app concat]. now rewrite app_nil_r.
+  - cbn [forallb] in Hok. apply andb_prop in Hok. destruct Hok as [He Hes].
+    apply andb_prop in He. destruct He as [Ht Hd]. apply negb_true_iff in Hd.
+    cbn [map app]. unfold cont_line at 1. cbn [Update.pf_loop].
+    change (32%N :: (match e with [] => [46%N] | _ => e end) ++ [10%N]) with (cont_line e).
+    rewrite match_cont_cont by assumption. rewrite IH by assumption.
+    cbn [map concat]. now rewrite <- app_assoc.
+Qed.
+
+Lemma join_lf_conts a es :
+  join [10%N] (a :: es) = a ++ concat (map (fun e => 10%N :: e) es).
+Proof.
+  revert a. induction es as [|e es IH]; intros a; [cbn; now rewrite app_nil_r|].
+  rewrite join_cons by discriminate. rewrite IH. reflexivity.
+Qed.
+
+Lemma pf_field_lines f ls paras pkg cur :
+  rfield_ok f = true ->
+  pf_loop (map Some (field_lines f) ++ ls) paras pkg cur =
+  pf_loop ls paras (flush cur pkg) (Some (rf_field f)).
+Proof.
+  intros Hok. pose proof Hok as Hok'. unfold UpdateSpec.rfield_ok in Hok'.
+  apply andb_prop in Hok'. destruct Hok' as [E Hc]. apply andb_prop in E. destruct E as [Hn Ht].
+  destruct (name_ok_parts _ Hn) as (c & x & r & En & _).
+  unfold field_lines. cbn [map app].
+  assert (Hline : exists y l, first_line f = y :: l).
+  { unfold first_line. rewrite En. cbn. eauto. }
+  destruct Hline as (y & l & Hline).
+  assert (Hstep : forall pkg0,
+    (if is_blank_line (first_line f)
+     then match pkg0 with [] => Err ParseError | _ => pf_loop (map Some (map cont_line (rf_conts f)) ++ ls) (rev pkg0 :: paras) [] None end
+     else match match_field (first_line f) with
+          | None => Err ParseError
+          | Some f0 => pf_loop (map Some (map cont_line (rf_conts f)) ++ ls) paras pkg0 (Some f0)
+          end) = pf_loop ls paras pkg0 (Some (rf_field f))).
+  { intros pkg0. rewrite not_blank_first by assumption. rewrite match_field_first by assumption.
+    rewrite pf_cont_lines by assumption. unfold rf_field. now rewrite join_lf_conts. }
+  cbn [Update.pf_loop]. rewrite Hline. rewrite <- Hline.
+  destruct cur as [[nm ct]|]; cbn [flush].
+  - rewrite match_cont_first by assumption. exact (Hstep ((nm, ct) :: pkg)).
+  - exact (Hstep pkg).
+Qed.
+
+Lemma pf_para_lines p : forall pkg cur,
+  forallb rfield_ok p = true ->
+  exists pkg' cur',
+    (forall ls paras, pf_loop (map Some (para_lines p) ++ ls) paras pkg cur = pf_loop ls paras pkg' cur')
+    /\ flush cur' pkg' = rev (map rf_field p) ++ flush cur pkg.
+Proof.
+  induction p as [|f p IH]; intros pkg cur Hok.
+  - exists pkg, cur. split; reflexivity.
+  - cbn [forallb] in Hok. apply andb_prop in Hok. destruct Hok as [Hf Hp].
+    destruct (IH (flush cur pkg) (Some (rf_field f)) Hp) as (pkg' & cur' & E1 & E2).
+    exists pkg', cur'. split.
+    + intros ls paras. unfold para_lines. cbn [flat_map]. rewrite map_app, <- app_assoc.
+      rewrite pf_field_lines by assumption. apply E1.
+    + rewrite E2. cbn [flush map rev]. now rewrite <- app_assoc.
+Qed.
+
+Lemma pf_blank ls paras pkg cur :
+  flush cur pkg <> [] ->
+  pf_loop (Some [10%N] :: ls) paras pkg cur = pf_loop ls (rev (flush cur pkg) :: paras) [] None.
+Proof.
+  intros Hne. cbn [Update.pf_loop].
+  assert (Hb : is_blank_line [10%N] = true) by reflexivity.
+  destruct cur as [[nm ct]|]; cbn [flush] in *.
+  - rewrite match_cont_blank, Hb. reflexivity.
+  - rewrite Hb. destruct pkg; [congruence|reflexivity].
+Qed.
+
+Lemma pf_eof paras pkg cur :
+  pf_loop [] paras pkg cur =
+  Ok (rev (match flush cur pkg with [] => paras | _ => rev (flush cur pkg) :: paras end)).
+Proof. reflexivity. Qed.
+
+Lemma index_text_parses_acc ps : forall acc,
+  index_text_ok is_space ps = true ->
+  pf_loop (map Some (index_lines ps)) acc [] None = Ok (rev acc ++ map (map rf_field) ps).
+Proof.
+  induction ps as [|p ps IH]; intros acc Hok.
+  - cbn. now rewrite app_nil_r.
+  - unfold index_text_ok in Hok. cbn [forallb] in Hok. apply andb_prop in Hok.
+    destruct Hok as [Hp Hps]. apply andb_prop in Hp. destruct Hp as [Hne Hp].
+    destruct (pf_para_lines p [] None Hp) as (pkg' & cur' & E1 & E2).
+    cbn [flush] in E2. rewrite app_nil_r in E2.
+    assert (Hfl : flush cur' pkg' <> []).
+    { rewrite E2. destruct p; [discriminate|]. cbn. intros E. apply app_eq_nil in E.
+      destruct E as [_ E]. discriminate. }
+    destruct ps as [|p2 ps].
+    + cbn [index_lines]. rewrite <- (app_nil_r (map Some (para_lines p))). rewrite E1.
+      rewrite pf_eof. destruct (flush cur' pkg') as [|f0 fl] eqn:Efl; [congruence|].
+      rewrite E2. cbn [rev map]. now rewrite rev_involutive.
+    + change (index_lines (p :: p2 :: ps)) with (para_lines p ++ [10%N] :: index_lines (p2 :: ps)).
+      rewrite map_app. cbn [map]. rewrite E1. rewrite pf_blank by assumption.
+      rewrite IH by exact Hps. rewrite E2, rev_involutive. cbn [rev map].
+      now rewrite <- app_assoc.
+Qed.
+
+(** PackageFile, applied to the text of an index, yields its paragraphs *)
+Theorem index_text_parses ps :
+  index_text_ok is_space ps = true ->
+  parse_pf is_space (map Some (index_lines ps)) = Ok (map (map rf_field) ps).
+Proof. intros Hok. unfold parse_pf. now rewrite index_text_parses_acc. Qed.
+
+End IndexText.
+
+(** * 8. The instance the check runs (py_isspace, py_islinebreak, re_d, nd_val) *)
+
+Lemma py_lb10 : py_islinebreak 10 = true.
+Proof. vm_compute. reflexivity. Qed.
+
+Definition update_converges_py H :=
+  update_converges py_isspace py_islinebreak re_d nd_val H py_lb10 digit_class_ok_str.
+Definition update_converges_spec_py H :=
+  update_converges_spec py_isspace py_islinebreak re_d nd_val H py_lb10 digit_class_ok_str.
+
+Definition update_garbled_patch_raises_py H :=
+  update_file_garbled_patch_raises py_isspace py_islinebreak re_d nd_val H py_lb10 digit_class_ok_str.
+Definition update_missing_digest_downloads_py H :=
+  update_file_missing_digest_downloads py_isspace py_islinebreak re_d nd_val H py_lb10.
+
+Lemma py_alpha_nospace c : is_alpha_c c = true -> py_isspace c = false.
+Proof.
+  unfold is_alpha_c. intros Hc. apply not_true_is_false. intros E.
+  unfold py_isspace, in_ranges in E. apply existsb_exists in E.
+  destruct E as [[lo hi] [Hin Hr]]. cbn [fst snd] in Hr.
+  apply andb_prop in Hr. destruct Hr as [H1 H2]. apply N.leb_le in H1, H2.
+  assert (Hc' : ((65 <= c)%N /\ (c <= 90)%N) \/ ((97 <= c)%N /\ (c <= 122)%N)).
+  { apply orb_prop in Hc. destruct Hc as [Hc|Hc]; apply andb_prop in Hc; destruct Hc as [A B];
+      apply N.leb_le in A, B; auto. }
+  unfold py_space_ranges in Hin. cbn [In] in Hin.
+  repeat (destruct Hin as [Hin|Hin]; [inversion Hin; subst; lia|]). destruct Hin.
+Qed.
+
+Definition index_text_parses_py :=
+  index_text_parses py_isspace (eq_refl : py_isspace 32 = true) (eq_refl : py_isspace 10 = true)
+    (eq_refl : py_isspace 46 = false) py_alpha_nospace.
+
+(** update_converges with the index given as TEXT *)
+Theorem update_converges_text_py H e fs sc rps v0 steps px :
+  let paras := map (map rf_field) rps in
+  let k := choose_kind (concat paras) in
+  let vn := current (versions v0 steps) in
+  f_new fs = None ->
+  e_index e = IdxLines (map Some (index_lines rps)) ->
+  index_text_ok py_isspace rps = true ->
+  concat paras = px_fields px ->
+  hash_avail e k = true ->
+  publishes py_isspace py_islinebreak (prefix_of k) (H k) v0 steps px = true ->
+  patches_published e steps = true ->
+  full_published e vn = true ->
+  match f_local fs with
+  | Some local => no_collision (H k) local (versions v0 steps)
+  | None => true
+  end = true ->
+  no_faults sc = true ->
+  update_file py_isspace py_islinebreak re_d nd_val H e fs sc = (Ok vn, mkfs (Some vn) None).
+Proof.
+  intros paras k vn Hn Hidx Htext. apply update_converges_py; [assumption|].
+  rewrite Hidx. cbn [read_index]. now rewrite index_text_parses_py.
+Qed.
+
+(** * 9. The hash hypotheses are satisfiable: an injective "digest" whose values are
+    single tokens (used only by the non-vacuity Examples) *)
+
+Definition inj_char (c : N) : N := (2 * c + 20001)%N.
+Definition inj_line (l : str) : str := map inj_char l ++ [20000%N].
+Definition injH (k : hkind) (ls : list str) : str :=
+  match k with SHA1 => 49%N | SHA256 => 50%N end :: flat_map inj_line ls.
+
+Lemma inj_char_inj a b : inj_char a = inj_char b -> a = b.
+Proof. unfold inj_char. lia. Qed.
+Lemma inj_char_not_end a : inj_char a <> 20000%N.
+Proof. unfold inj_char. lia. Qed.
+
+Lemma inj_line_app l1 : forall l2 r1 r2,
+  inj_line l1 ++ r1 = inj_line l2 ++ r2 -> l1 = l2 /\ r1 = r2.
+Proof.
+  unfold inj_line.
+  induction l1 as [|a l1 IH]; intros [|b l2] r1 r2 E; cbn [map app] in E.
+  - injection E as E. auto.
+  - injection E as E1 E2. symmetry in E1. now apply inj_char_not_end in E1.
+  - injection E as E1 E2. now apply inj_char_not_end in E1.
+  - injection E as E1 E2. apply inj_char_inj in E1. subst b.
+    destruct (IH l2 r1 r2 E2) as [-> ->]. auto.
+Qed.
+
+Lemma injH_inj k x : forall y, injH k x = injH k y -> x = y.
+Proof.
+  unfold injH. induction x as [|l x IH]; intros [|m y] E; inversion E as [E1]; clear E.
+  - reflexivity.
+  - unfold inj_line in E1. destruct (map inj_char m); discriminate.
+  - unfold inj_line in E1. destruct (map inj_char l); discriminate.
+  - cbn [flat_map] in E1. apply inj_line_app in E1. destruct E1 as [-> E1].
+    f_equal. apply IH. now f_equal.
+Qed.
